@@ -45,6 +45,8 @@ type c14Var struct {
 	// name the type is registered under (NAME or NAME.* for a parameterised variable)
 	Ctx    string `json:"ctx,omitempty"`
 	Family string `json:"family,omitempty"`
+	// declared NonemptyIfDefined: the declaration is the ground truth, the empty value is not admitted
+	Nonempty bool `json:"nonempty,omitempty"`
 }
 
 // the contexts that can precede the condition in the generated file
@@ -58,10 +60,10 @@ type c14Var struct {
 var c14Contexts = []string{"", "self=", "self?=", "self+=", "sibling", "unrelated", "nested", "cond-self"}
 
 // MkLines.checkAllData.vars.IsDefined(varname): the exact name was assigned on an
-// earlier line of the file (any operator, conditional or not)
+// earlier line of the file (any operator) outside of .if and .for blocks
 func (v c14Var) assignedEarlier() bool {
 	switch v.Ctx {
-	case "self=", "self?=", "self+=", "cond-self":
+	case "self=", "self?=", "self+=":
 		return true
 	}
 	return false
@@ -98,7 +100,7 @@ var c14Kinds = []struct {
 func c14MkVar(tag, def string) c14Var {
 	for _, k := range c14Kinds {
 		if k.tag == tag {
-			return c14Var{Name: "C14" + tag + "_" + def, Kind: k.kind, List: k.list, Def: def}
+			return c14Var{Name: "C14" + tag + "_" + def, Kind: k.kind, List: k.list, Def: def, Nonempty: def == "N" && k.kind != "none"}
 		}
 	}
 	panic("c14: unknown kind " + tag)
@@ -114,10 +116,11 @@ func (v c14Var) flags() string {
 	}
 	typed := v.Kind != "none"
 	return b(typed) + b(v.Kind == "unknown") + b(v.List) +
-		b(typed && v.Def == "D") +
-		b(typed && (v.Def == "D" || v.Def == "P" || v.Def == "L")) +
+		b(typed && (v.Def == "D" || v.Def == "N")) +
+		b(typed && (v.Def == "D" || v.Def == "P" || v.Def == "L" || v.Def == "N")) +
 		b(v.assignedEarlier()) +
-		b(typed && v.Def != "L")
+		b(typed && v.Def != "L") +
+		b(typed && v.Def == "N")
 }
 
 // ground truth, independent of pkglint's isDefined: can the variable be
@@ -136,7 +139,7 @@ func (v c14Var) mayBeUndefined(prefs bool) bool {
 		}
 	}
 	switch v.Def {
-	case "D":
+	case "D", "N":
 		return false
 	case "P":
 		return !prefs || v.Kind == "none"
@@ -182,6 +185,9 @@ func c14WordAdmitted(kind, w string) bool {
 // variables without a declared type)
 func (v c14Var) admits(value string) bool {
 	ws := strings.Fields(value)
+	if len(ws) == 0 && v.Nonempty {
+		return false
+	}
 	if len(ws) > 1 && !v.List && v.Kind != "unknown" && v.Kind != "none" {
 		return false
 	}
@@ -293,7 +299,7 @@ type c14Spec struct {
 func (s c14Spec) variable() c14Var {
 	if s.Real > 0 {
 		rv := c14RealVars[s.Real-1]
-		v := c14Var{Name: rv.name, Kind: rv.kind, List: rv.list, Def: "real", Ctx: s.Ctx, Family: rv.name}
+		v := c14Var{Name: rv.name, Kind: rv.kind, List: rv.list, Def: "real", Ctx: s.Ctx, Family: rv.name, Nonempty: rv.nonempty}
 		if rv.param && s.Param != "" {
 			v.Name, v.Family = rv.name+"."+s.Param, rv.name+".*"
 		}
@@ -635,6 +641,9 @@ func (st *c14State) runCases(cases []*c14Case) {
 		if c.modelAgrees() {
 			for _, a := range c.model.applied {
 				res.Count("rewrite_"+a.kind, 1)
+				if a.kind == "yesno" && strings.Contains(a.from, ":N") {
+					res.Count("rewrite_yesno_N", 1) // only for variables declared NonemptyIfDefined
+				}
 				if a.ast == "0" {
 					res.AddViolation(Violation{Key: "C14/correspondence/text-vs-tree/" + a.kind,
 						What:       fmt.Sprintf("the spec's reader does not map the model's text %q -> %q to the model's syntax trees (condition %q)", a.from, a.to, c.line),
@@ -897,7 +906,7 @@ func c14CondText(line string) string { return c14ReDirective.ReplaceAllString(li
 var c14Combos = []struct {
 	def   string
 	prefs bool
-}{{"D", true}, {"P", true}, {"P", false}, {"U", true}, {"L", true}, {"F", true}} // F = U + "SUBJECT= value" before the condition
+}{{"D", true}, {"P", true}, {"P", false}, {"U", true}, {"L", true}, {"F", true}, {"N", true}} // F = U + "SUBJECT= value" before the condition; N = D + NonemptyIfDefined
 
 func c14Exhaustive(thorough bool) []c14Spec {
 	var out []c14Spec
@@ -973,8 +982,8 @@ func c14Exhaustive(thorough bool) []c14Spec {
 		for _, cb := range []struct {
 			def   string
 			prefs bool
-		}{{"U", true}, {"P", true}, {"P", false}, {"D", true}} {
-			if cb.def == "D" && tag != "YN" {
+		}{{"U", true}, {"P", true}, {"P", false}, {"D", true}, {"N", true}} {
+			if (cb.def == "D" || cb.def == "N") && tag != "YN" && tag != "EA" {
 				continue
 			}
 			for _, param := range []string{"", "foo"} {
@@ -1160,21 +1169,22 @@ var c14RealVars = []struct {
 	list       bool
 	undef      bool
 	param      bool // declared as NAME.*: the subject is NAME.<param>
+	nonempty   bool // declared NonemptyIfDefined
 }{
-	{"OPSYS", "enum:Linux NetBSD", false, false, false},                       // sysloadbl3, enum from mk/platform/*.mk, DefinedIfInScope
-	{"MACHINE_ARCH", "enum:i386 x86_64 aarch64 sparc64", false, false, false}, // AlwaysInScope|DefinedIfInScope
-	{"X11_TYPE", "enum:modular native", false, false, false},                  // DefinedIfInScope
-	{"OS_VERSION", "version", false, true, false},                             // sysloadbl3 BtVersion, not DefinedIfInScope
-	{"LOWER_OPSYS", "ident", false, true, false},                              // BtIdentifierDirect
-	{"PKG_OPTIONS", "option", true, false, false},                             // list of BtOption, DefinedIfInScope
-	{"PKG_DEVELOPER", "yesno", false, true, false},                            // usr BtYesNo
-	{"ABI", "enum:32 64", false, true, false},                                 // usr enum
-	{"MAKE_JOBS", "integer", false, true, false},                              // usr BtInteger
-	{"USE_LANGUAGES", "enum:ada c c99 c++ c++14", true, true, false},          // pkglist, enum from mk/compiler.mk
-	{"CHECK_BUILTIN", "yesno", false, true, true},                             // CHECK_BUILTIN.*: BtYesNo, PackageSettable, "*: use-loadtime"
-	{"USE_BUILTIN", "yesno", false, false, true},                              // USE_BUILTIN.*: BtYesNoIndirectly, DefinedIfInScope|NonemptyIfDefined
-	{"BUILDLINK_PREFIX", "ident", false, true, true},                          // BUILDLINK_PREFIX.*: BtPathname, use only
-	{"PKG_OPTIONS", "option", true, true, true},                               // PKG_OPTIONS.*: usrlist BtOption
+	{"OPSYS", "enum:Linux NetBSD", false, false, false, true},                       // sysloadbl3, enum from mk/platform/*.mk, DefinedIfInScope
+	{"MACHINE_ARCH", "enum:i386 x86_64 aarch64 sparc64", false, false, false, true}, // AlwaysInScope|DefinedIfInScope
+	{"X11_TYPE", "enum:modular native", false, false, false, true},                  // DefinedIfInScope
+	{"OS_VERSION", "version", false, true, false, false},                            // sysloadbl3 BtVersion, not DefinedIfInScope
+	{"LOWER_OPSYS", "ident", false, true, false, false},                             // BtIdentifierDirect
+	{"PKG_OPTIONS", "option", true, false, false, true},                             // list of BtOption, DefinedIfInScope
+	{"PKG_DEVELOPER", "yesno", false, true, false, false},                           // usr BtYesNo
+	{"ABI", "enum:32 64", false, true, false, false},                                // usr enum
+	{"MAKE_JOBS", "integer", false, true, false, false},                             // usr BtInteger
+	{"USE_LANGUAGES", "enum:ada c c99 c++ c++14", true, true, false, false},         // pkglist, enum from mk/compiler.mk
+	{"CHECK_BUILTIN", "yesno", false, true, true, false},                            // CHECK_BUILTIN.*: BtYesNo, PackageSettable, "*: use-loadtime"
+	{"USE_BUILTIN", "yesno", false, false, true, true},                              // USE_BUILTIN.*: BtYesNoIndirectly, DefinedIfInScope|NonemptyIfDefined
+	{"BUILDLINK_PREFIX", "ident", false, true, true, false},                         // BUILDLINK_PREFIX.*: BtPathname, use only
+	{"PKG_OPTIONS", "option", true, true, true, false},                              // PKG_OPTIONS.*: usrlist BtOption
 }
 
 var c14ReAutofix = regexp.MustCompile(`^AUTOFIX: [^:]+:(\d+): Replacing (".*") with (".*")\.$`)
@@ -1378,7 +1388,7 @@ func runC14(ctx *Ctx) *Result {
 		for _, fl := range []struct {
 			key string
 			min int
-		}{{"rewrite_word", 300}, {"rewrite_yesno", 60}, {"rewrite_match", 100}, {"rewrite_and", 20}, {"wholerun_rewritten", 100}, {"maymatchnumber_no_checked", 5}} {
+		}{{"rewrite_word", 300}, {"rewrite_yesno", 60}, {"rewrite_match", 100}, {"rewrite_and", 20}, {"rewrite_yesno_N", 10}, {"wholerun_rewritten", 100}, {"maymatchnumber_no_checked", 5}} {
 			n, _ := res.Distribution[fl.key].(int)
 			if n < fl.min {
 				res.Broken = fmt.Sprintf("coverage floor missed: %s = %d < %d", fl.key, n, fl.min)
